@@ -354,3 +354,85 @@ def ok(self, dim):
 def id_self_check() -> int:
     t = ast.parse(ID_CONTROL)
     return sum(len(id_truth_tests(f)) for f in t.body)
+
+
+# --------------------------------------------------------------------------- truth tests of payload values
+def payload_value_truth_tests(fn: ast.AST) -> List[Tuple[int, str, str]]:
+    """Values taken from the response (an element's "value" / "id", a category's numeric value) may be 0 or "": a bare
+    truth test (`{v for v in values if v}`, `if value:`) drops exactly those.  Tracked: names bound from `x.get("value")`,
+    `x["value"]`, `x.get("id")`, `x["id"]`; loop variables over such collections or over calls of local helpers that return
+    them."""
+    KEYS = ("value", "id")
+
+    def is_payload_read(e):
+        if isinstance(e, ast.Call) and isinstance(e.func, ast.Attribute) and e.func.attr == "get" and e.args and isinstance(e.args[0], ast.Constant) and e.args[0].value in KEYS:
+            return True
+        if isinstance(e, ast.Subscript) and isinstance(e.slice, ast.Constant) and e.slice.value in KEYS:
+            return True
+        return False
+
+    # local helpers that return a payload value
+    helpers = set()
+    for n in ast.walk(fn):
+        if isinstance(n, ast.FunctionDef) and n is not fn:
+            names = set()
+            for a in ast.walk(n):
+                if isinstance(a, ast.Assign) and isinstance(a.targets[0], ast.Name) and is_payload_read(a.value):
+                    names.add(a.targets[0].id)
+            for r in ast.walk(n):
+                if isinstance(r, ast.Return) and r.value is not None and (is_payload_read(r.value) or any(isinstance(x, ast.Name) and x.id in names for x in ast.walk(r.value))):
+                    helpers.add(n.name)
+    value_names = set()
+    for n in ast.walk(fn):
+        if isinstance(n, ast.Assign) and isinstance(n.targets[0], ast.Name) and is_payload_read(n.value):
+            value_names.add(n.targets[0].id)
+        if isinstance(n, (ast.comprehension, ast.For)) and isinstance(n.target, ast.Name):
+            it = n.iter
+            from_helper = any(isinstance(c, ast.Call) and ((isinstance(c.func, ast.Name) and c.func.id in helpers) or (u(c.func) == "map" and c.args and isinstance(c.args[0], ast.Name) and c.args[0].id in helpers)) for c in ast.walk(it))
+            elt_payload = isinstance(it, (ast.ListComp, ast.GeneratorExp)) and is_payload_read(it.elt)
+            if from_helper or elt_payload:
+                value_names.add(n.target.id)
+    out = []
+
+    def test(e, ctx):
+        while isinstance(e, ast.UnaryOp) and isinstance(e.op, ast.Not):
+            e = e.operand
+        if isinstance(e, ast.BoolOp):
+            for v in e.values:
+                test(v, ctx)
+            return
+        if (isinstance(e, ast.Name) and e.id in value_names) or is_payload_read(e):
+            out.append((getattr(e, "lineno", 0), ctx, u(e)))
+
+    for n in ast.walk(fn):
+        if isinstance(n, (ast.If, ast.While)):
+            test(n.test, "if")
+        elif isinstance(n, ast.IfExp):
+            test(n.test, "conditional expression")
+        elif isinstance(n, ast.comprehension):
+            for c in n.ifs:
+                test(c, "comprehension filter")
+    seen, uniq = set(), []
+    for x in out:
+        if (x[0], x[2]) not in seen:
+            seen.add((x[0], x[2]))
+            uniq.append(x)
+    return uniq
+
+
+PAYLOAD_CONTROL = '''
+def augment(self, cube_resp, elements):
+    def row_value(element):
+        value = element.get("value")
+        return value if isinstance(value, (int, str)) else None
+    present = {v for v in map(row_value, cube_resp["elements"]) if v}
+    return [item["id"] for item in elements if row_value(item) in present]
+
+def ok(self, cube_resp):
+    return [el.get("value") for el in cube_resp["elements"] if isinstance(el.get("value"), (int, str))]
+'''
+
+
+def payload_self_check() -> int:
+    t = ast.parse(PAYLOAD_CONTROL)
+    return sum(len(payload_value_truth_tests(f)) for f in t.body)
